@@ -28,7 +28,9 @@ Judge(c) ==
                ELSE IF WithinBound(cnt, b) THEN "ok"
                ELSE IF TriggerNoMemo(C) /\ (\A i \in 1..5 : cnt[i] <= coded[i]) THEN "known:DevNoMemo"
                ELSE "violation"
-  IN <<"VERDICT", c.id, v, Size(C), b, ToJson(coded), IF cnt = coded THEN "match" ELSE "drift", ToJson(Visits_ideal(C))>>
+  \* one JSON string, so that TLC prints the tuple on one line
+  IN <<"VERDICT", c.id, ToJson([verdict |-> v, size |-> Size(C), bound |-> b, coded |-> coded,
+                                match |-> (cnt = coded), ideal |-> Visits_ideal(C)])>>
 
 TInit == l = 1
 TNext == l <= Len(Cases) /\ PrintT(Judge(Cases[l])) /\ l' = l + 1
